@@ -861,6 +861,24 @@ func (s *Schema) MakeTester(table string, filter Filter) (Tester, error) {
 	}, nil
 }
 
+// columnValues converts the values of a filter, or of a row extracted with
+// extractRow, to the driver values of their columns.
+func (t *Table) columnValues(m map[string]interface{}) (Filter, error) {
+	f := make(Filter, len(m))
+	for name, value := range m {
+		column, ok := t.ColumnsByName[name]
+		if !ok {
+			return nil, fmt.Errorf("unknown column %s", name)
+		}
+		v, err := column.Descriptor.Valuer(reflect.ValueOf(value)).Value()
+		if err != nil {
+			return nil, fmt.Errorf("sqlgen: filter error for `%s`.`%s`: %v", t.Name, column.Name, err)
+		}
+		f[name] = v
+	}
+	return f, nil
+}
+
 func (t *Table) extractRow(row interface{}) Filter {
 	f := make(Filter)
 
